@@ -95,9 +95,11 @@ func DirectedHeldEpoch(base string, seed int64, useCopy bool) (*DirectedResult, 
 		// a second, overlapping backup of the same root that finishes first: its
 		// release must not take away the protection of the files the parked one needs
 		dest2 := filepath.Join(filepath.Dir(dir), "copy2")
+		r.RemoveHold("copy.memfile") // the second backup runs unhindered
 		if err := r.Idx.(bleve.IndexCopyable).CopyTo(bleve.FileSystemDirectory(dest2)); err != nil {
 			res.CopyErr = fmt.Errorf("overlapping copy: %v", err)
 		}
+		r.AddHold(HoldRule{Point: "copy.memfile", Until: "Go2", Count: 1, Timeout: 20 * time.Second, Prob: 1, Once: true})
 		_ = os.RemoveAll(dest2)
 	} else {
 		if rid, err = r.OpenReader(); err != nil {
